@@ -106,6 +106,17 @@ static void freeze_boundary(const std::string &dir) {
     char name[64]; snprintf(name, sizeof name, "bnd_seqmesh_%u_%s.drc", n, raw ? "cc" : "direct"); std::ofstream f2(dir + "/" + name, std::ios::binary); f2.write(eb.data(), eb.size()); f2.close();
     std::vector<uint8_t> b(eb.data(), eb.data() + eb.size()); printf("%s %s\n", name, decode_digest(b).c_str());
   }
+  // raw (not entropy-coded) integer values occupy 1 + msb/8 bytes each: one stream per width 1..4 and per method
+  for (int q : {7, 12, 20, 28}) for (int mesh = 0; mesh < 2; mesh++) {
+    Mesh m; const int n = 14; m.set_num_points(n); GeometryAttribute ga; ga.Init(GeometryAttribute::POSITION, nullptr, 3, DT_FLOAT32, false, 12, 0); int id = m.AddAttribute(ga, true, n);
+    for (int i = 0; i < n; i++) { float p[3] = {(float)(i % 4) * 1.25f + 0.01f * (float)i, (float)(i / 4) * 0.75f, (float)((i * 5) % 7) / 3.f}; m.attribute(id)->SetAttributeValue(AttributeValueIndex(i), p); }
+    for (int f = 0; f + 2 < n; f += 1) { Mesh::Face fc; fc[0] = PointIndex(f); fc[1] = PointIndex(f + 1); fc[2] = PointIndex(f + 2); m.AddFace(fc); }
+    for (int pred = 0; pred < 2; pred++) { Encoder enc; enc.SetSpeedOptions(5, 5); enc.SetAttributeQuantization(GeometryAttribute::POSITION, q); enc.options().SetGlobalBool("use_built_in_attribute_compression", false);
+      if (pred) enc.SetAttributePredictionScheme(GeometryAttribute::POSITION, PREDICTION_NONE);
+      EncoderBuffer eb; Status st; if (mesh) { enc.SetEncodingMethod(MESH_SEQUENTIAL_ENCODING); st = enc.EncodeMeshToBuffer(m, &eb); } else { enc.SetEncodingMethod(POINT_CLOUD_SEQUENTIAL_ENCODING); st = enc.EncodePointCloudToBuffer(m, &eb); }
+      if (!st.ok()) continue;
+      char name[64]; snprintf(name, sizeof name, "bnd_rawvalues_q%d_%s_%s.drc", q, mesh ? "mesh" : "pc", pred ? "nopred" : "delta"); std::ofstream f2(dir + "/" + name, std::ios::binary); f2.write(eb.data(), eb.size()); f2.close();
+      std::vector<uint8_t> b(eb.data(), eb.data() + eb.size()); printf("%s %s\n", name, decode_digest(b).c_str()); } }
 }
 
 int main(int argc, char **argv) {
